@@ -47,6 +47,14 @@ inductive Fmt
   | masked (v m k : Nat)
 deriving Repr, Inhabited
 
+/-- one action on a `SimpleStringCollection` inside a `coll` operation -/
+inductive CollAct
+  | alloc (n : Nat)                 -- col.allocate(n)
+  | set (i : Nat) (a : String)      -- col[i] = *a
+  | get (i : Nat)                   -- col[i]  (printed)
+  | size                            -- col.size()
+deriving Repr, Inhabited
+
 inductive Op
   | junk (b : UInt8)
   | new (l : String) (h : Buf)
@@ -76,6 +84,10 @@ inductive Op
   | strstr (h1 h2 : Buf) | memcmp (h1 h2 : Buf) (n : Nat)
   | atoi (h : Buf) | atou (h : Buf) | tolower (c : UInt8)
   | fmt (l : String) (f : Fmt)
+  | coll (acts : List CollAct)             -- a collection is constructed, used by `acts`, destroyed
+  | selfassignc (l : String)               -- *l = l->asCharString()   (temporary made from the own buffer)
+  | selfrepl (l : String) (h : Buf)        -- l->replace(l->asCharString(), h)
+  | selfreplw (l : String) (h : Buf)       -- l->replace(h, l->asCharString())
   | skip
 deriving Repr, Inhabited
 
@@ -134,6 +146,26 @@ def runFmt (st : Store) : Fmt → M Obj
   | .binarySize n => stringFromBinaryWithSize false n
   | .binarySizeOrNull isNull n => stringFromBinaryWithSizeOrNull isNull n
   | .masked v m k => stringFromMaskedBits v m k
+
+/-- the actions of a `coll` operation on a live collection; `none` from the store = unknown label -/
+def runColl (st : Store) : List CollAct → Coll → M Coll
+  | [], col => pure col
+  | .alloc n :: rest, col => do
+    let col' ← collAllocate col n
+    runColl st rest col'
+  | .set i a :: rest, col =>
+    match st.get? a with
+    | some x => do
+      let col' ← collAssign col i x
+      runColl st rest col'
+    | none => liftE (.error .env)
+  | .get i :: rest, col => do
+    let r ← collGet col i
+    out ("cval " ++ Proto.hex (cview r.2.buf))
+    runColl st rest r.1
+  | .size :: rest, col => do
+    out s!"csize {col.items.length}"
+    runColl st rest col
 
 def query2 (st : Store) (a b : String) (f : Obj → Obj → M Unit) : M Store :=
   match st.get? a, st.get? b with
@@ -301,6 +333,34 @@ def step (st : Store) : Op → M Store
   | .atou h => do let r ← liftE (AtoU h 0); outNat r; pure st
   | .tolower c => do out ("ret " ++ Proto.hex [ToLower c]); pure st
   | .fmt l f => create st l (runFmt st f)
+  | .coll acts => do
+    let col ← collCtor
+    let col ← runColl st acts col
+    collDtor col
+    pure st
+  | .selfassignc l =>
+    match st.get? l with
+    | some x => do
+      let t ← ctorCStr x.buf 0
+      let r ← assign x t
+      dtor t
+      outVal r
+      pure (st.put l r)
+    | none => bad
+  | .selfrepl l h =>
+    match st.get? l with
+    | some x => do
+      let r ← replaceStr x x.buf 0 h 0
+      outVal r
+      pure (st.put l r)
+    | none => bad
+  | .selfreplw l h =>
+    match st.get? l with
+    | some x => do
+      let r ← replaceStr x h 0 x.buf 0
+      outVal r
+      pure (st.put l r)
+    | none => bad
   | .skip => pure st
 
 end SStr
